@@ -147,6 +147,7 @@ def check():
         "complex LU (lu_decomp_complex / lin_solve_complex) is exercised by the Radau replays, not by a separate theorem",
     ]
     broken = []
+    common.regenerate()
     if os.path.exists(os.path.join(common.COQ, "props", "C16.v")):
         ok, detail = common.proof_stage(rep, "C16.v")
         if not ok:
